@@ -124,11 +124,16 @@ def _parse(text: str) -> tuple:
     if e != "E":
         # the Environment's own globals must reach every template however it was loaded
         raise EnvGlobalsLost(text)
-    return int(c), int(g[1:]) if g else 0
+    return int(c), GCODE[g]
 
 
 class EnvGlobalsLost(Exception):
     pass
+
+
+# per-load template globals by code; 3, 4 and 5 are equal under Python's == and render differently
+GVALS: dict[int, Any] = {1: "G1", 2: "G2", 3: 1, 4: True, 5: 1.0}
+GCODE = {"": 0, "G1": 1, "G2": 2, "1": 3, "true": 4, "1.0": 5}
 
 
 def run_history(kind: str, cap: int, auto_reload: bool, ns_key: bool, ops: list[tuple]) -> dict[str, Any]:
@@ -178,7 +183,7 @@ def run_history(kind: str, cap: int, auto_reload: bool, ns_key: bool, ops: list[
                 kw: dict[str, Any] = {}
                 if ns is not None:
                     kw["uid"] = ns
-                gl = {"g": f"G{g}"} if g else None
+                gl = {"g": GVALS[g]} if g else None
                 out = []
                 for env in (env_c, env_u):
                     try:
@@ -362,6 +367,10 @@ def configs(tier: str) -> list[tuple[str, int, bool, bool]]:
 CORPUS = [
     # (kind, cap, auto_reload, ns_key, ops) — past disagreements / defects, run first
     ("dict", 2, True, False, [("M", "t", 1), ("L", "t", None, 1, False), ("L", "t", None, 0, False)]),
+    # globals that are equal under Python's == but render differently: every hit re-binds them
+    ("dict", 2, True, False, [("M", "t", 1), ("L", "t", None, 3, False), ("L", "t", None, 4, False), ("L", "t", None, 5, True), ("L", "t", None, 3, True)]),
+    ("fs", 2, True, False, [("M", "t", 1), ("L", "t", None, 4, True), ("L", "t", None, 3, True), ("L", "t", None, 5, False), ("L", "t", None, 4, False)]),
+    ("choice", 2, True, False, [("M", "t", 1), ("L", "t", None, 5, False), ("L", "t", None, 4, True), ("L", "t", None, 3, False)]),
     ("nsdict", 2, True, True, [("M", "u/t", 1), ("M", "v/t", 2), ("L", "t", "u", 0, True), ("L", "t", "v", 0, True)]),
     ("fs", 2, True, False, [("M", "t", 1), ("L", "t", None, 0, False), ("D", "t"), ("L", "t", None, 0, False)]),
     ("fs", 2, True, False, [("M", "t", 1), ("L", "t", None, 0, True), ("D", "t"), ("L", "t", None, 0, True)]),
@@ -420,7 +429,7 @@ def main(chk: C.Check, build: C.Build) -> None:
                 for _ in range(r.randint(3, 8)):
                     k = r.random()
                     if k < 0.7:
-                        body.append(("L", r.choice(NAMES), r.choice([falsy, falsy, "u"]), r.choice([0, 1]), r.random() < 0.5))
+                        body.append(("L", r.choice(NAMES), r.choice([falsy, falsy, "u"]), r.choice([0, 1, 3, 4]), r.random() < 0.5))
                     elif k < 0.9:
                         keys = ([f"{x}/{n_}" for x in (falsy, "u") for n_ in NAMES] if ns_aware else list(NAMES))
                         body.append(("M", r.choice(keys), 0))
